@@ -543,6 +543,20 @@ fn gen_base(rng: &mut Rng, presigned: bool) -> Base {
     if rng.chance(1, 4) {
         headers.push(("content-type".into(), rng.pick(&["application/octet-stream", "text/plain", "application/xml"]).to_owned()));
     }
+    if !backend && rng.chance(1, 8) {
+        // many header lines, with a signed header on two or three of them somewhere in between: the lines of one name are
+        // joined in the order received, however many other lines there are (an ordering step must be stable at every size)
+        headers.retain(|(k, _)| k != "x-amz-meta-a");
+        for v in ["first", "second", "third"].iter().take(2 + rng.below(2) as usize) {
+            headers.push(("x-amz-meta-a".into(), (*v).to_owned()));
+        }
+        let nfill = 30 + rng.below(40);
+        for i in 0..nfill {
+            let name = format!("{}-fill-{i}", rng.pick(&["a", "m", "x-amz-meta-0", "x-amz-meta-b", "x-b", "x-z", "z"]));
+            let at = rng.below(headers.len() as u64 + 1) as usize;
+            headers.insert(at, (name, rng.pick(&HVALS).to_owned()));
+        }
+    }
     let body = if matches!(method.as_str(), "PUT" | "POST") {
         let n = if rng.chance(1, 5) { 0 } else { rng.range(1, 120) as usize };
         rng.bytes(n)
@@ -1419,6 +1433,13 @@ fn iso_instant(unix: i64) -> String {
     format!("{}-{}-{}T{}:{}:{}.000Z", &t[0..4], &t[4..6], &t[6..8], &t[9..11], &t[11..13], &t[13..15])
 }
 
+/// the same instant written with a numeric zone offset (RFC 3339 `time-numoffset`): local date-time = instant + offset
+fn iso_instant_offset(unix: i64, offset_minutes: i64) -> String {
+    let t = amz_timestamp(unix + offset_minutes * 60);
+    let (sign, m) = if offset_minutes < 0 { ('-', -offset_minutes) } else { ('+', offset_minutes) };
+    format!("{}-{}-{}T{}:{}:{}{sign}{:02}:{:02}", &t[0..4], &t[4..6], &t[6..8], &t[9..11], &t[11..13], &t[13..15], m / 60, m % 60)
+}
+
 fn json_str(s: &str) -> String {
     let mut o = String::from("\"");
     for ch in s.chars() {
@@ -1590,6 +1611,12 @@ pub fn generate_post(rng: &mut Rng, n: u64, emit: &mut dyn FnMut(Vec<String>)) {
             all.push(assemble("policy-ok.x-ignore-field", &pl, &base_text, table(), &file).0);
         }
         // ---- (a) expired
+        // the expiration is an INSTANT: written with a zone offset it denotes the same moment (a policy that expired an hour
+        // ago is expired in every zone, one that expires in an hour is valid in every zone)
+        for off in [480i64, -300, 345, -720, 840] {
+            all.push(assemble(&format!("policy-ok.expires-in-an-hour-offset{off}"), &plain, &render_policy(&iso_instant_offset(now + 3600, off), &conds, sp), table(), &file).0);
+            all.push(assemble(&format!("policy-expired.an-hour-ago-offset{off}"), &plain, &render_policy(&iso_instant_offset(now - 3600, off), &conds, sp), table(), &file).0);
+        }
         all.push(assemble("policy-expired.1s", &plain, &render_policy(&iso_instant(now - 1), &conds, sp), table(), &file).0);
         all.push(assemble("policy-expired.1day", &plain, &render_policy(&iso_instant(now - 86400), &conds, sp), table(), &file).0);
         all.push(assemble("policy-expired.year2000", &plain, &render_policy("2000-01-01T00:00:00Z", &conds, sp), table(), &file).0);
